@@ -1,4 +1,5 @@
 import PyGam.Proofs.HeapViews
+import PyGam.Gen.Decisions
 /-!
 # C15 — models are isolated: queries are pure, fit depends only on settings and data
 
@@ -451,5 +452,23 @@ example :
     ∧ ((run env0 World.empty (hist1.take 8)).view 0).map (fun v => v.fitted.isSome) = some true
     ∧ (step env0 (run env0 World.empty (hist1.take 11)) (.query .predict 0 0)).2 ≠ .error := by
   decide
+
+/-! ### tie to the source by translation of the decision logic (`gen_decision_*`)
+
+`Gen/Decisions.lean` is regenerated on every run from the abstract syntax tree of `pygam/pygam.py`:
+`Gen.classRecreatesDist` says for every model class whether its own `_validate_params` executes
+`self.distribution = <Dist>(scale=self.scale)`. -/
+section gen_decisions
+/-- the Python class of a model class of `Model/Heap.lean` -/
+def clsPyName : Cls → String
+  | .linear => "LinearGAM" | .gamma => "GammaGAM" | .invGauss => "InvGaussGAM" | .expectile => "ExpectileGAM"
+  | .logistic => "LogisticGAM" | .poisson => "PoissonGAM" | .generic => "GAM"
+
+/-- the classes that build a fresh distribution object on every fit are exactly those of `Cls.recreatesDist` -/
+theorem gen_decision_recreates_dist (c : Cls) :
+    Gen.classRecreatesDist.lookup (clsPyName c) = some (some c.recreatesDist) := by
+  cases c <;> rfl
+
+end gen_decisions
 
 end PyGam.C15
